@@ -320,11 +320,13 @@ let run_types line =
             let k = nexti () in let ps = List.init k (fun _ -> ptype_of (next ())) in let rf = rtype_of (next ()) in TMemBound (rel, oc, mc, ps, rf)
         | "bind" -> let v = base_of_code (next ()) in let f = fty () in TBindLast (f, v)
         | "hide" -> let f = fty () in THideLast f
+        | "hideat" -> let i = nexti () in let f = fty () in THideAt (nat_of_int i, f)
+        | "bindat" -> let i = nexti () in let v = base_of_code (next ()) in let f = fty () in TBindAt (nat_of_int i, f, v)
         | "hr" -> let f = fty () in THideReturn f
         | "retype" -> let f = fty () in TRetype f
         | t -> raise (Parse ("functor " ^ t)) in
       let f = fty () in
-      Printf.sprintf "lib=%d direct=%d" (if lib_accepts gen_hop_modes gen_memfun_pass sg r f then 1 else 0) (if direct_ok sg r f then 1 else 0)
+      Printf.sprintf "lib=%d direct=%d" (if lib_accepts gen_hop_modes gen_memfun_pass gen_slices sg r f then 1 else 0) (if direct_ok sg r f then 1 else 0)
   | t -> raise (Parse ("types " ^ t))
 
 
